@@ -19,70 +19,11 @@ func C10(c *Ctx) {
 		r.Unknown("C10", "ab/logout", "package", "-", "logout package not found")
 		return
 	}
-	fn := c.P.Func("(*ab/logout.Logout).Logout")
-	name := FuncName(fn)
-	ev := c.Event("EventLogout")
-	uid := c.P.ConstString("", "SessionKey")
-	half := c.P.ConstString("", "SessionHalfAuthKey")
-	last := c.P.ConstString("", "SessionLastAction")
-	rm := c.P.ConstString("", "CookieRemember")
-
-	var before *Fire
-	for _, f := range Fires(fn) {
-		if f.Before && f.Const && f.Event == ev {
-			ff := f
-			before = &ff
-		}
-	}
-	if before == nil {
-		r.Bad("C10.clear", name, "FireBefore(EventLogout)", "-", "Logout does not fire Before(EventLogout)")
+	if !c.logoutClear("C10.clear", "C10.before-err", false) {
 		return
 	}
-	ok, why := c.errPropagated(before.Call)
-	r.Check(ok, "C10.before-err", name, "FireBefore(EventLogout).err", posf(c, before.Call), why, "error of the before-logout fire is not propagated: "+why)
-	needs := []struct {
-		what string
-		pred func(ssa.Instruction) bool
-	}{
-		{"DelAllSession(SessionStateWhitelistKeys)", func(i ssa.Instruction) bool {
-			call, ok := i.(ssa.CallInstruction)
-			return ok && Callee(call) == fnDelAllSession && fieldLoadName(Arg(call, 1)) == "SessionStateWhitelistKeys"
-		}},
-		{"DelSession(" + uid + ")", c.isStateOp("del", "session", uid)},
-		{"DelSession(" + half + ")", c.isStateOp("del", "session", half)},
-		{"DelSession(" + last + ")", c.isStateOp("del", "session", last)},
-		{"DelCookie(" + rm + ")", c.isStateOp("del", "cookie", rm)},
-	}
-	assume := map[ssa.Value]bool{}
-	if before.Handled != nil {
-		assume[before.Handled] = false
-	}
-	for _, n := range needs {
-		q := PathQuery{From: before.Call.(ssa.Instruction), Assume: assume, Cut: n.pred, Goal: func(i ssa.Instruction) bool {
-			ret, ok := i.(*ssa.Return)
-			return ok && !c.isErrorExit(ret)
-		}, Prune: func(from, to *ssa.BasicBlock) bool {
-			// the error edge of the fire leaves with an error
-			if f, ok := EdgeFact(from, to); ok && before.Err != nil && f.SaysNotNil(before.Err) {
-				return true
-			}
-			return false
-		}}
-		if p := q.Find(); p != nil {
-			r.Bad("C10.clear", name, n.what, posf(c, before.Call), "a logout that was not taken over by a Before(EventLogout) handler can complete without "+n.what+": that state survives the logout", c.P.DescribePath(p)...)
-		} else {
-			r.Ok("C10.clear", name, n.what, posf(c, before.Call), "performed on every completing path")
-		}
-	}
-	// nothing re-puts a cleared key
-	for _, op := range c.StateOps(fn) {
-		if op.Op != "put" {
-			continue
-		}
-		if (op.Store == "session" && (op.Key == uid || op.Key == half || op.Key == last)) || (op.Store == "cookie" && op.Key == rm) || !op.Const {
-			r.Bad("C10.clear", name, op.String(), posf(c, op.Call), "logout writes a key it is supposed to remove")
-		}
-	}
+	fn := c.P.Func("(*ab/logout.Logout).Logout")
+	name := FuncName(fn)
 
 	// (2) delAllState contract and flush order
 	das := c.P.Func("ab.delAllState")
@@ -278,4 +219,82 @@ func (c *Ctx) logoutMethodTable() {
 		}
 	}
 	r.Check(okH, "C10.method", name, "handler", posf(c, reg), "/logout -> ErrorHandler.Wrap(Logout)", "the /logout route is not served by the Logout handler")
+}
+
+// logoutClear: from the not-handled/no-error outcome of FireBefore(EventLogout)
+// every completing path of logout.Logout deletes the listed state.
+func (c *Ctx) logoutClear(rule, ruleErr string, cookieOnly bool) bool {
+	r := c.R
+	if c.P.ByPath[RepoPath+"/logout"] == nil {
+		return false
+	}
+	fn := c.P.Func("(*ab/logout.Logout).Logout")
+	name := FuncName(fn)
+	ev := c.Event("EventLogout")
+	uid := c.P.ConstString("", "SessionKey")
+	half := c.P.ConstString("", "SessionHalfAuthKey")
+	last := c.P.ConstString("", "SessionLastAction")
+	rm := c.P.ConstString("", "CookieRemember")
+
+	var before *Fire
+	for _, f := range Fires(fn) {
+		if f.Before && f.Const && f.Event == ev {
+			ff := f
+			before = &ff
+		}
+	}
+	if before == nil {
+		r.Bad(rule, name, "FireBefore(EventLogout)", "-", "Logout does not fire Before(EventLogout)")
+		return false
+	}
+	ok, why := c.errPropagated(before.Call)
+	r.Check(ok, ruleErr, name, "FireBefore(EventLogout).err", posf(c, before.Call), why, "error of the before-logout fire is not propagated: "+why)
+	needs := []struct {
+		what string
+		pred func(ssa.Instruction) bool
+	}{
+		{"DelAllSession(SessionStateWhitelistKeys)", func(i ssa.Instruction) bool {
+			call, ok := i.(ssa.CallInstruction)
+			return ok && Callee(call) == fnDelAllSession && fieldLoadName(Arg(call, 1)) == "SessionStateWhitelistKeys"
+		}},
+		{"DelSession(" + uid + ")", c.isStateOp("del", "session", uid)},
+		{"DelSession(" + half + ")", c.isStateOp("del", "session", half)},
+		{"DelSession(" + last + ")", c.isStateOp("del", "session", last)},
+		{"DelCookie(" + rm + ")", c.isStateOp("del", "cookie", rm)},
+	}
+	if cookieOnly {
+		needs = needs[len(needs)-1:]
+	}
+	assume := map[ssa.Value]bool{}
+	if before.Handled != nil {
+		assume[before.Handled] = false
+	}
+	for _, n := range needs {
+		q := PathQuery{From: before.Call.(ssa.Instruction), Assume: assume, Cut: n.pred, Goal: func(i ssa.Instruction) bool {
+			ret, ok := i.(*ssa.Return)
+			return ok && !c.isErrorExit(ret)
+		}, Prune: func(from, to *ssa.BasicBlock) bool {
+			// the error edge of the fire leaves with an error
+			if f, ok := EdgeFact(from, to); ok && before.Err != nil && f.SaysNotNil(before.Err) {
+				return true
+			}
+			return false
+		}}
+		if p := q.Find(); p != nil {
+			r.Bad(rule, name, n.what, posf(c, before.Call), "a logout that was not taken over by a Before(EventLogout) handler can complete without "+n.what+": that state survives the logout", c.P.DescribePath(p)...)
+		} else {
+			r.Ok(rule, name, n.what, posf(c, before.Call), "performed on every completing path")
+		}
+	}
+	// nothing re-puts a cleared key
+	for _, op := range c.StateOps(fn) {
+		if op.Op != "put" || (cookieOnly && op.Store != "cookie") {
+			continue
+		}
+		if (op.Store == "session" && (op.Key == uid || op.Key == half || op.Key == last)) || (op.Store == "cookie" && op.Key == rm) || !op.Const {
+			r.Bad(rule, name, op.String(), posf(c, op.Call), "logout writes a key it is supposed to remove")
+		}
+	}
+
+	return true
 }
